@@ -679,7 +679,26 @@ def r49(orig, rule):
     return '{ let mut __v: Vec<%s> = Vec::new(); let mut __it = %s.iter(); loop { match __it.next() { Some(__x) => { __v.push(__x); } None => { break; } } } __v }' % (ty, x)
 
 
+def r50(orig, rule):
+    # M.entry(K).or_default().push(V);   ->  M.push_to(K, V);
+    #   (the std entry API appends V to the list stored under K, creating the empty list first when K is absent; `push_to` is the
+    #    stub method of the map model carrying exactly that contract)
+    s = norm(orig)
+    m = _m(r'(%s) \. entry \( (.+?) \) \. or_default \( \) \. push \( (.+) \) ;' % ID, s)
+    mp, k, v = m.groups()
+    return '%s.push_to(%s, %s);' % (mp, k, v)
+
+
+def r51(orig, rule):
+    # for X in E {   with E a reference to a Vec   ->  for X in E.iter() {        (IntoIterator for &Vec<T> is iter())
+    s = norm(orig)
+    m = _m(r'for (%s) in (%s) \{' % (ID, ID), s)
+    x, e = m.groups()
+    return 'for %s in %s.iter() {' % (x, e)
+
+
 GENERATORS = {
+    'R50': r50, 'R51': r51,
     'R49': r49,
     'R48': r48,
     'R46': r46, 'R47': r47,
